@@ -46,7 +46,8 @@ type Env struct {
 	ExtraGo   map[string]string
 	Builds    *int64 // optional counters
 	NoRunMain bool
-	Tinyfo    bool // the transpiler is tinyfo (reads/writes differently)
+	// OnGen, if set, receives the emitted gen_t.go of every successful transpiler run.
+	OnGen func(gen string)
 }
 
 const guardGo = `package main
@@ -178,6 +179,11 @@ func (e *Env) run(all []Prog, idx []int, res []Result) {
 		}
 		return
 	}
+	if e.OnGen != nil {
+		if b, err := os.ReadFile(filepath.Join(dir, "gen_t.go")); err == nil {
+			e.OnGen(string(b))
+		}
+	}
 	os.WriteFile(filepath.Join(dir, "guard.go"), []byte(guardGo), 0o644)
 	for n, c := range e.ExtraGo {
 		os.WriteFile(filepath.Join(dir, n), []byte(c), 0o644)
@@ -275,7 +281,6 @@ func splitOutput(out string) (map[int]string, map[int]string, map[int]bool) {
 	}
 	return outs, panics, ended
 }
-
 
 // locateGoErrors maps compiler error lines to programs through the declaration
 // that contains the line: every top-level declaration of program k mentions
